@@ -88,3 +88,16 @@ add("C03", "exploration",
     "under the two serialisation options differ from the option-off twin only by the declaration or by self-closed whitespace-only elements. Known finding: the regexp rewrite "
     "alters empty-pair look-alikes inside CDATA sections or comments.",
     "DESIGN.md §3 C03", "real netconf.Driver over causal transport model against a strict independent stream decoder; per-call wire/XML oracles plus option-twin sessions (byte-aligned self-closing rewrite checker)")
+
+add("C10", "exploration",
+    "Exploration. The real in-channel telnet and ssh login code is driven through 580 (quick) / ~25 000 (thorough) generated dialogues under generic, network and NETCONF "
+    "drivers with random segmentations and stall points; every ssh failure line and prompt spelling of the generator families is included. Outcome class, credential/prompt "
+    "pairing, the <=2 bound, transport close on failure and availability of login bytes are compared with a plan-derived oracle. Holds for dialogues meeting the stated "
+    "no-ambiguous-prefix preconditions (checked by brute force with the session's own patterns).",
+    "DESIGN.md §3 C10", "plan-driven login device model behind an in-channel-auth transport model; outcome oracle computed from the plan; device (state,line) log, close counter and first-operation checks")
+
+add("C11", "exploration",
+    "Exploration. In 300 (quick) / 10 000 (thorough) sessions with random printable secrets (format verbs, regexp metacharacters, spaces, quotes) a collecting logger at "
+    "debug/info/critical level, the channel log and the spawned stand-in process's argv are searched for each secret in raw, quoted, fmt-mangled and fragment forms; a "
+    "blindness check requires that the monitor saw the corresponding 'redacted' write messages. Assumes devices do not echo secrets; response objects are out of scope.",
+    "DESIGN.md §3 C11", "collecting logger + channel-log writer on authenticating/escalating sessions (login dialogues, escalations, platform on-open, real system transport with stand-in ssh incl. argv); multi-form secret search; monitor-blindness check")
